@@ -73,7 +73,7 @@ func (d *semDriver) run() {
 		k := twinKey(sc, cfg)
 		if _, ok := twinSpecs[k]; !ok {
 			twinSpecs[k] = d.mkSpec("twin/"+k, sc, cfg, OrderPlan{Mode: "canon"}, nil, false)
-			twinSpecs[k].Budget = 3000000000
+			twinSpecs[k].Budget = 1000000000
 			tkeys = append(tkeys, k)
 		}
 		return k
@@ -186,6 +186,27 @@ func (d *semDriver) run() {
 	for i, k := range tkeys {
 		twins[k] = tres[i]
 	}
+	// a twin that does not return makes its scenario unevaluable for this property:
+	// report it once and skip the scenario's cases (C01 owns the crash itself)
+	{
+		dead := map[string]bool{}
+		for _, k := range tkeys {
+			if cl, wh, de := crashOf(twins[k]); cl != "" {
+				dead[k] = true
+				name := strings.SplitN(k, "|", 2)[0]
+				c.Findings = append(c.Findings, &Finding{Class: "unevaluable:" + cl, Scenario: name, Where: wh,
+					Detail: "the restart-free, canonical-order, fault-free run of the scenario does not return, so no oracle of this property can be evaluated on it: " + de,
+					Oracle: "run returns", Spec: twinSpecs[k], Expect: "unevaluable:" + cl + "@" + wh})
+			}
+		}
+		var kept []*semCase
+		for _, cs := range cases {
+			if !dead[cs.twin] {
+				kept = append(kept, cs)
+			}
+		}
+		cases = kept
+	}
 	// step budget of every case: 50 x the steps of its twin (a deterministic,
 	// replayable non-termination verdict instead of the wall-clock watchdog)
 	for _, cs := range cases {
@@ -272,6 +293,9 @@ func (d *semDriver) account(cs *semCase, r *Result) {
 // canonical order (or a minimal site set), fewer probes, default zoom/input, no fault.
 func (d *semDriver) minimize(cs *semCase, is Issue, twin *Result) *Finding {
 	c := d.c
+	if !c.mayMinimize() {
+		return &Finding{Class: is.Class, Scenario: cs.sc.Name, Where: is.Where, Detail: fmt.Sprintf("(not minimised) cfg=%s order=%s faults=%v: %s", cs.cfg, cs.spec.Order.Mode, cs.spec.Faults, is.Detail), Spec: cs.spec, Oracle: c.Prop + " oracle", Expect: is.Class + "@" + is.Where}
+	}
 	has := func(cand *semCase) bool {
 		r := c.Pool.Run([]*Spec{cand.spec}, nil)[0]
 		for _, x := range d.oracles(cand, r, twin) {
